@@ -246,6 +246,9 @@ var c11Units = []string{
 	"a", "é", "€", "😀", " ", "$", "`", ".", "[", "{", "(", "/", "'", "?", ":", "|", "&", "u", "\\" + "u0031", "0",
 	// what opens and closes a comment in other languages is text in a string
 	"/*", "*/", "//", "#",
+	// the replacement character itself, written raw (three valid bytes), and the
+	// last code point
+	"\xef\xbf\xbd", "\xf4\x8f\xbf\xbf",
 }
 
 func c11Nontrivial(text string) bool {
@@ -265,7 +268,7 @@ func c11Nontrivial(text string) bool {
 
 // TestC11_StringUnits: every string of <= 3 units over the unit alphabet.
 func TestC11_StringUnits(t *testing.T) {
-	rec := begin(t, "C11", "exhaustive: every JSON string of 0..3 units over a 46-unit alphabet (comment markers of other languages, every two-character escape, \\uXXXX for BMP code points incl. controls, surrogate pairs in lower and upper case hex, raw BMP and astral characters, JSONata metacharacters), as a top-level text and inside an array and an object; oracle = encoding/json; evaluated on six inputs; plus the single-quoted respelling; non-trivial = contains an escape, a non-ASCII character or a container; distinct by text")
+	rec := begin(t, "C11", "exhaustive: every JSON string of 0..3 units over a 48-unit alphabet (comment markers of other languages, the raw replacement character and U+10FFFF, every two-character escape, \\uXXXX for BMP code points incl. controls, surrogate pairs in lower and upper case hex, raw BMP and astral characters, JSONata metacharacters), as a top-level text and inside an array and an object; oracle = encoding/json; evaluated on six inputs; plus the single-quoted respelling; non-trivial = contains an escape, a non-ASCII character or a container; distinct by text")
 	defer finish(t, rec)
 	shard, nshards := stats.Shard()
 	n := 0
